@@ -144,6 +144,8 @@ def cells(tier):
                         continue
                     if tier == "quick" and repeat and shuffled and layout != "two-shards" and iface != "rust":
                         continue
+                    if repeat and shuffled and layout in ("four-shards", "nested") and iface != "rust":
+                        continue  # measured: > 900 s per cell (every pull forks on two random indices)
                     out.append(dict(iface=iface, layout=layout, repeat=repeat, shuffled=shuffled))
     return out
 
